@@ -3,6 +3,9 @@ package worlds
 import (
 	"context"
 	"fmt"
+	"strconv"
+	"strings"
+	"time"
 
 	"github.com/cosi-project/runtime/pkg/controller/runtime/zzverif/simrt"
 	"github.com/cosi-project/runtime/pkg/resource"
@@ -52,10 +55,21 @@ type Tap struct {
 	OnCommit func(c Commit)
 	// Fail, if set, may reject a write (C10 fault injection): returns an error before applying.
 	Fail func(kind string, typ, id string) error
+	// Preload is what the backing store already contains (handed to Load, with a scheduling point between items).
+	Preload []resource.Resource
 }
 
 // Load implements inmem.BackingStore.
-func (t *Tap) Load(context.Context, inmem.LoadHandler) error { return nil }
+func (t *Tap) Load(_ context.Context, h inmem.LoadHandler) error {
+	for _, r := range t.Preload {
+		simrt.Yield("backingstore.load")
+		if err := h(r.Metadata().Type(), r.DeepCopy()); err != nil {
+			return err
+		}
+	}
+	simrt.Yield("backingstore.load-done")
+	return nil
+}
 
 // Put implements inmem.BackingStore.
 func (t *Tap) Put(_ context.Context, typ resource.Type, res resource.Resource) error {
@@ -102,7 +116,25 @@ type StoreWorld struct {
 }
 
 // Variants of the store stack.
-var storeVariants = []string{"inmem", "namespaced", "inmem+tap", "namespaced+tap"}
+var storeVariants = []string{"inmem", "namespaced", "inmem+tap", "namespaced+tap", "inmem+preload+tap"}
+
+// preloaded is the content of the backing store in the "+preload" variants.
+func preloaded() []resource.Resource {
+	var out []resource.Resource
+	for i, id := range []string{"r0", "r1"} {
+		r := NewRes("ns1", TypeA, id, "preloaded-"+id)
+		v, _ := resource.ParseVersion(strconv.Itoa(2 + i))
+		r.Metadata().SetVersion(v)
+		_ = r.Metadata().SetOwner([]string{"", "A"}[i])
+		r.Metadata().SetCreated(time.Date(1999, 1, 1, 0, 0, i, 0, time.UTC))
+		r.Metadata().SetUpdated(time.Date(1999, 1, 2, 0, 0, i, 0, time.UTC))
+		if i == 1 {
+			r.Metadata().Finalizers().Add("f1")
+		}
+		out = append(out, r)
+	}
+	return out
+}
 
 // NewStoreWorld builds a store stack. Must be called inside the bubble.
 func NewStoreWorld(variant string, h HistCfg) *StoreWorld {
@@ -110,18 +142,22 @@ func NewStoreWorld(variant string, h HistCfg) *StoreWorld {
 	mk := func(ns string, tap bool) *inmem.State {
 		o := h.opts()
 		if tap {
-			o = append(o, inmem.WithBackingStore(&Tap{ns: ns, Log: &w.Log, OnCommit: func(c Commit) {
+			tp := &Tap{ns: ns, Log: &w.Log, OnCommit: func(c Commit) {
 				if w.onCommit != nil {
 					w.onCommit(c)
 				}
-			}}))
+			}}
+			if strings.Contains(variant, "+preload") {
+				tp.Preload = preloaded()
+			}
+			o = append(o, inmem.WithBackingStore(tp))
 		}
 		return inmem.NewStateWithOptions(o...)(ns)
 	}
 	switch variant {
 	case "inmem":
 		w.Core = mk("ns1", false)
-	case "inmem+tap":
+	case "inmem+tap", "inmem+preload+tap":
 		w.Core = mk("ns1", true)
 	case "namespaced":
 		w.Core = namespaced.NewState(func(ns resource.Namespace) state.CoreState { return mk(ns, false) })
